@@ -32,8 +32,9 @@ m = dict(
                source_commits=[], add_only=True),
     engines=ENGINES,
     checks=checks,
-    notes='All checks are bounded-exhaustive explorations of the real headers against an exact reference (see DESIGN.md). '
-          'Repairs of genuine defects are listed in KNOWN_FINDINGS.txt (fixed: lines).',
+    notes='All checks are bounded-exhaustive explorations of the real headers against an exact reference (see DESIGN.md): inputs (E1), programs (E2), '
+          'object histories (E3), schedules (E4), call sequences on long-lived objects with owned allocator (E5), single-fault positions (E6). '
+          'Repairs of genuine defects (nine "fix:" commits in /repo) are listed in KNOWN_FINDINGS.txt (fixed: lines); no known: entries.',
     not_applicable=na,
 )
 json.dump(m, open(os.path.join(VERIF, 'MANIFEST.json'), 'w'), indent=1)
